@@ -56,7 +56,7 @@ fn env_case(rng: &mut Rng, projects: &[String], faults: bool) -> Value {
         "lang": rng.pick(&[None, Some("C"), Some("es_ES.UTF-8")]),
         "thor_r": rng.chance(1, 2),
         "thor_v": rng.below(3),
-        "stdout_to": rng.pick(&["pipe", "pipe", "file", "file", "tty", "slow_pipe_stop"]),
+        "stdout_to": rng.pick(&["pipe", "pipe", "file", "file", "tty", "slow_pipe_stop", "dev_full", "closed_pipe"]),
         "args_variant": rng.pick(&["plain", "plain", "dup_flag", "unknown_opt"]),
     })
 }
@@ -74,8 +74,8 @@ fn run_env(jobs: Vec<Value>, scratch: &std::path::Path) -> Vec<Outcome> {
     let res = orch::run_chunks(chunks, &opts, scratch);
     (0..n)
         .map(|i| {
-            res.get(&i).cloned().unwrap_or(Outcome::Abort {
-                status: "job lost".into(),
+            res.get(&i).cloned().unwrap_or_else(|| Outcome::Abort {
+                status: { crate::orch::note_harness_error("job lost by the orchestrator"); "job lost".into() },
                 stderr_tail: String::new(),
             })
         })
@@ -194,7 +194,7 @@ pub fn run(tier: &str, seed: u64, replay: Option<String>) -> i32 {
         env_jobs.push(json!({"t":"env","project":p,"tool":"hulc2model","use_extra":true,"fs":["stale_gains_table"],"rust_log":Value::Null,
             "path_form":"abs","hash_seed":54321,"fake_time":Value::Null,"lang":Value::Null,"thor_r":false,"thor_v":0}));
         // the documented use: stdout redirected to a file; and an interactive terminal
-        for dev in ["file", "tty", "slow_pipe_stop"] {
+        for dev in ["file", "tty", "slow_pipe_stop", "dev_full", "closed_pipe"] {
             env_jobs.push(json!({"t":"env","project":p,"tool":"hulc2model","use_extra":dev == "file","fs":[],"rust_log":Value::Null,
                 "path_form":"abs","hash_seed":0,"fake_time":Value::Null,"lang":Value::Null,"thor_r":false,"thor_v":0,"stdout_to":dev}));
         }
@@ -207,10 +207,21 @@ pub fn run(tier: &str, seed: u64, replay: Option<String>) -> i32 {
         env_jobs.push(json!({"t":"env","project":p,"tool":"thor","use_extra":false,"fs":["stale_output"],"rust_log":Value::Null,
             "path_form":"abs","hash_seed":0,"fake_time":Value::Null,"lang":Value::Null,"thor_r":true,"thor_v":0}));
     }
+    // projects printed by the generator (basements, fins, several floors, own glazing library, ...)
+    let gen_base = rng.next_u64() % 1_000_000;
+    let gen_dirs: Vec<String> = (0..if thorough { 300 } else { 24 }).map(|k| crate::projgen::dir_rel(gen_base + k)).collect();
+    for (k, p) in gen_dirs.iter().enumerate() {
+        for (tool, extra) in [("hulc2model", false), ("hulc2model", true), ("thor", false)] {
+            env_jobs.push(json!({"t":"env","project":p,"tool":tool,"use_extra":extra,"fs":[],"rust_log":Value::Null,
+                "path_form":"abs","hash_seed":k as u64 * 7,"fake_time":Value::Null,"lang":Value::Null,"thor_r":k % 2 == 0,"thor_v":0}));
+        }
+    }
     let n_strict = env_jobs.len();
     let n_sample = if thorough { 6000 } else { 300 };
+    let mut sample_projects = projects.clone();
+    sample_projects.extend(gen_dirs.iter().take(12).cloned());
     for _ in 0..n_sample {
-        env_jobs.push(env_case(&mut rng, &projects, true));
+        env_jobs.push(env_case(&mut rng, &sample_projects, true));
     }
     eprintln!("[C01] process level: {} fault-free + {} seeded cases", n_strict, n_sample);
     let env_out = run_env(env_jobs.clone(), &scratch.dir);
@@ -421,6 +432,7 @@ pub fn run(tier: &str, seed: u64, replay: Option<String>) -> i32 {
     let mut extra = Map::new();
     extra.insert("process_runs".into(), json!(env_jobs.len()));
     extra.insert("process_runs_fault_free".into(), json!(n_strict));
+    extra.insert("generated_projects_run_through_the_tools".into(), json!(gen_dirs.len()));
     extra.insert("process_case_classes".into(), json!(case_classes));
     extra.insert("stdout_byte_identical_to_library_as_json".into(), json!(byte_identical));
     extra.insert("in_process_runs".into(), json!(lib.jobs.len()));
